@@ -9,7 +9,7 @@ is not an engine load failure.
 """
 import json, os, shutil, subprocess, sys, tempfile
 root = os.path.dirname(os.path.dirname(os.path.abspath(__file__)))
-muts = json.load(open(os.path.join(root, "tools", "mutants.json")))
+muts = json.load(open(os.path.join(root, "checker", "audit", "mutants.json")))
 want = set(sys.argv[1:])
 allprops = "--all" in want
 want.discard("--all")
